@@ -287,6 +287,25 @@ def atleast_1d(*arys):
     return res[0] if len(res) == 1 else tuple(res)
 
 
+def squeeze(a, axis=None):
+    return asarray(a).squeeze(axis)
+
+
+def fromiter(iterable, dtype, count=-1):
+    """1-D array from an iterable of scalars; an item that is itself a sequence is refused as numpy does."""
+    dt = globals()["dtype"](dtype)
+    items = []
+    for k, it in enumerate(iterable):
+        if count >= 0 and k >= count:
+            break
+        if isinstance(it, (list, tuple)) or (isinstance(it, ndarray) and it.ndim > 0):
+            raise ValueError("setting an array element with a sequence.")
+        items.append(it)
+    if count > len(items):
+        raise ValueError(f"iterator too short: Expected {count} but iterator had only {len(items)} items.")
+    return asarray(items, dtype=dt) if items else zeros(0, dt)
+
+
 def atleast_2d(*arys):
     res = []
     for a in arys:
